@@ -31,10 +31,14 @@ CHECKS = {
     },
     "C02": {
         "scenarios": [("C02-udp", "vsim"), ("C02-api", "vsim")],
+        "timeout": {"quick": 1500, "thorough": 14000},
         "rule": "fault plans over the decoded datagrams of real sessions: positional (one or two scripted rules: drop xN / duplicate / "
                 "delay of the open request, open response, data seq k (any or a specific retransmission), pure acks), random fair loss/"
                 "duplication/jitter per direction, and a window family (8 MB past a pausing reader); crossed with write patterns, MTU per "
-                "side, traffic patterns, 1-4 sessions; non-trivial = bytes compared and at least one fault actually hit a datagram; "
+                "side, traffic patterns, 1-4 sessions; a long-pause variant of the window family (the reading application stops for "
+                "70/100/150/400 s, nobody closes) and a shared-association family (8 MB towards an application that stops reading "
+                "for 150 s while 1-2 other sessions of the association exchange 20 small messages each way, which must finish within "
+                "100 s); non-trivial = bytes compared and at least one fault actually hit a datagram; "
                 "distinct = hash of (family, sessions, MTUs, pattern classes, first rule hits in hub order)",
         "technique": "runtime monitor: stream equality at both application ends + bounded-progress oracle in virtual time, under enumerated "
                      "and random fair fault plans applied by a simulated datagram hub that decodes every datagram with the reference codec",
